@@ -5,7 +5,7 @@ from pathlib import Path
 
 from . import names as RN
 from . import keyscheme as KS
-from .family import slug, tag, NO
+from .family import slug, tag, NO, visible
 
 
 class Missing(Exception):
@@ -110,7 +110,8 @@ def evaluate(spec, values, namespace=None, context=None, ns_context=None, extra_
             in_vals[k] = out[tgt]['value']
         info['key_text'] = KS.key_text(info['params'], in_keys)
         info['key'] = KS.digest32(info['key_text'])
-        info['value'] = tag(info['slug'], dict(info['param_values']), in_vals)
+        info['raw'] = tag(info['slug'], dict(info['param_values']), in_vals)
+        info['value'] = visible(info['data'], info['raw'])
         done.add(f)
     for f in order:
         finish(f)
